@@ -505,8 +505,11 @@ func processLogEventLimits(app *App) {
 	log.Debugf("handling log limits: agent_report_period = %f collector_report_period = %f", agentReportPeriod, collectorReportPeriod)
 	log.Debugf("handling log limits: agent_log_limit = %d collectorLogLimit = %d", agentLogLimit, collectorLogLimit)
 
+	// A negative agent limit is the result of converting an out of range
+	// unsigned value: ignore it, as NewHarvestLimits does, instead of
+	// negotiating a negative reservoir capacity.
 	finalLogLimit := collectorLogLimit
-	if agentLogLimit < collectorLogLimit {
+	if agentLogLimit >= 0 && agentLogLimit < collectorLogLimit {
 		finalLogLimit = agentLogLimit
 		log.Debugf("handling log limits: agent_log_limit = %d selected over collectorLogLimit = %d", agentLogLimit, collectorLogLimit)
 	}
